@@ -10,7 +10,14 @@ pub fn duplicate_checks(ctx: &Ctx, tier: Tier) -> (u64, u64) {
     let mut states = 0u64;
     let mut transitions = 0u64;
     for seed_name in SEEDS {
-        let w0 = seed(seed_name);
+        let w0 = match guarded(|| seed(seed_name)) {
+            Ok(w) => w,
+            Err(msg) => {
+                // the library panics while the seed is built from valid input: C12 reports it; this check cannot use the seed
+                ctx.machinery_error(format!("seed {seed_name} cannot be built, the library panics at {} (a C12 matter): {msg}", last_panic_loc()));
+                continue;
+            }
+        };
         let mut hists: Vec<Vec<Op>> = vec![vec![]];
         let first: Vec<Op> = ops_for(&w0, Profile::All);
         if tier == Tier::Thorough {
